@@ -1,4 +1,4 @@
-CONSTANTS PageM <- Page43 Formats = {"RGBA32_LE"} Strides = {"exact"} MaxDraws = 0 Clip = TRUE
+CONSTANTS Pages = {} Formats = {"RGBA32_LE"} Strides = {"exact"} MaxDraws = 0 Clip = "region"
 SPECIFICATION TSpec
 INVARIANT AllAccepted
 POSTCONDITION TraceAccepted
